@@ -134,7 +134,11 @@ ParamAlgCases ==
         post \in {<< >>, <<AlgNode(BN(256), TRUE)>>},
         v \in {[n |-> <<128, 0, 0, 0>>, neg |-> FALSE, expect |-> "reject"], [n |-> <<128, 0, 0, 0>>, neg |-> TRUE, expect |-> "reject"],
                [n |-> BNMaxI32, neg |-> FALSE, expect |-> "accept"], [n |-> BNMaxI32, neg |-> TRUE, expect |-> "accept"],
-               [n |-> BNSucc(BNMaxU32), neg |-> FALSE, expect |-> "reject"]}}
+               [n |-> BNSucc(BNMaxU32), neg |-> FALSE, expect |-> "reject"],
+               \* congruent to -7 / -8 modulo 2^32 and 2^64 (a wider integer narrowed by a cast)
+               [n |-> <<255, 255, 255, 249>>, neg |-> FALSE, expect |-> "reject"], [n |-> <<255, 255, 255, 248>>, neg |-> FALSE, expect |-> "reject"],
+               [n |-> <<1, 0, 0, 0, 6>>, neg |-> TRUE, expect |-> "reject"], [n |-> <<1, 0, 0, 0, 7>>, neg |-> TRUE, expect |-> "reject"],
+               [n |-> <<255, 255, 255, 255, 255, 255, 255, 249>>, neg |-> FALSE, expect |-> "reject"]}}
 
 \* a value within its limit is accepted whatever its CONTENT: the words of the source's dictionary
 \* alone and as a prefix, white space at either end, in every bounded text and byte member
